@@ -142,17 +142,32 @@ class ChainGen:
                 stmts = [s if s[1] != 'Elem' else ('rule', 'Elem', None, ('alt', [('ref', 'Extra%d' % level), s[3]])) for s in stmts]
             if r.random() < 0.3 and any(s[0] == 'class' for s in grammars[0]['stmts']):
                 stmts.append(('class', 'Pt', None, [('field', 'x', ('ref', 'Item')), ('field', 'z', ('str', '^'))]))
+            if r.random() < 0.3:
+                # a class that only this level defines (the base may have no class at all), reached
+                # through an override of Elem
+                cname = 'Nw%d' % level
+                stmts.append(('class', cname, None, [('field', 'v', ('ref', 'Item')), ('field', 'w', ('opt', ('str', '%')))]))
+                had = [s for s in stmts if s[0] == 'rule' and s[1] == 'Elem']
+                prev = had[0][3] if had else ('super', 'Elem')
+                stmts = [s for s in stmts if not (s[0] == 'rule' and s[1] == 'Elem')]
+                stmts.append(('rule', 'Elem', None, ('alt', [('seq', [('str', '%'), ('ref', cname)]), prev])))
+                uses_super = uses_super or not had
             if not stmts:
                 body, sup = self.override('Item', level)
                 stmts.append(('rule', 'Item', None, body))
             stmts = stmts + self.ignores_for(level)
             grammars.append(dict(name=names[level], extends=names[level - 1], stmts=stmts))
+        if r.random() < 0.25:
+            # the start rule is found whatever its capitalisation, in the grammar itself and when inherited
+            from .c20 import rename_grammar
+            spelled = r.choice(['Start', 'START'])
+            grammars = [rename_grammar(G, {'start': spelled}) for G in grammars]
         return grammars
 
 
 def alphabet_of(grammars, ignore_mode):
     al = work.grammar_alphabet(grammars)
-    keep = ''.join(c for c in al if c in 'abcd,:;()<>[]{}=#@^!')
+    keep = ''.join(c for c in al if c in 'abcd,:;()<>[]{}=#@^!%')
     extra = {'none': '', 'base-named': ' ', 'base-anon': ' ', 'derived': '_', 'both': ' _', 'both-anon': ' _', 'three': ' _~'}[ignore_mode]
     return keep, extra
 
